@@ -233,6 +233,8 @@ def join_side(a, b):
         return b, False
     if b is None:
         return a, False
+    if "M" in (a, b):
+        return "M", False
     if "B" in (a, b):
         return "B", False
     return "X", True      # O vs N conflict
@@ -714,6 +716,7 @@ class FnEval:
                 if st.get("init") is not None and init is None:
                     init = ANY
                 self.bind_pat(st["pat"], init, st.get("line", 0))
+                self.check_presized(st)
                 if st.get("els"):
                     self.ev_block(st["els"])
             else:
@@ -721,6 +724,31 @@ class FnEval:
         if b.get("expr"):
             return self.ev(b["expr"])
         return T()
+
+    def check_presized(self, st):
+        """A4: `let old_xs = vec![e; n]` -- a per-side container is pre-sized by a length of its own side."""
+        if not self.report or not st.get("init") or st["pat"].get("k") != "bind":
+            return
+        ns = name_side(st["pat"].get("name") or "")
+        x = st["init"]
+        while isinstance(x, dict) and x.get("k") in ("droptemps", "addrof", "cast"):
+            x = x["x"]
+        if not ns or not (isinstance(x, dict) and x.get("k") == "call" and len(x.get("args", [])) == 2):
+            return
+        f = x["f"]
+        path = (f.get("res") or {}).get("path", "") if isinstance(f, dict) and f.get("k") == "path" else ""
+        if not path.endswith("from_elem"):
+            return
+        n = self.ev(x["args"][1])
+        if not is_s(n):
+            return
+        ok = not (n[2] in ("M", "X") or (n[2] in ("O", "N") and n[2] != ns))
+        self.ctx.ob("A4", ok, "%s: `%s` pre-sized by %s" % (self.fn.path, st["pat"].get("name"), show(n)))
+        if not ok:
+            self.ctx.finding("A4", self.fn, "presized:%s" % st["pat"].get("name"),
+                             "`%s` holds one entry per %s-side item but is created with %s entries (a length of the other "
+                             "side, or a mixture of both sides): the surplus entries are reported as items that do not exist" % (
+                                 st["pat"].get("name"), _sn(ns), show(n)), st.get("line", 0))
 
     def ev(self, e):
         if e is None:
@@ -760,6 +788,7 @@ class FnEval:
                 if st.get("init") is not None and init is None:
                     init = ANY
                 self.bind_pat(st["pat"], init, st.get("line", 0))
+                self.check_presized(st)
                 if st.get("els"):
                     self.ev_block(st["els"])
             else:
@@ -801,7 +830,12 @@ class FnEval:
 
     def ev_if(self, e):
         self.ev(e["c"])
-        a = self.ev(e["t"])
+        stack = self.__dict__.setdefault("cond_stack", [])
+        stack.append(e["c"])
+        try:
+            a = self.ev(e["t"])
+        finally:
+            stack.pop()
         b = self.ev(e["f"]) if e.get("f") else None
         if e.get("ty") in ("()", "!"):
             return T()
@@ -945,6 +979,82 @@ class FnEval:
                                  "`%s` passes the old range `%s` and the new range `%s`, which are not mirror images of each "
                                  "other (normalised: %s vs %s): one side is stripped/advanced differently" % (
                                      e.get("src", ""), pair["O"].get("src", ""), pair["N"].get("src", ""), a, b), e["line"])
+            if ok:
+                self.check_guard_mirror(e, pair)
+
+    def cmp_sides(self, node):
+        """Sides of the locals / fields a comparison talks about (by name, by inferred sort, by what they offset)."""
+        sides = set()
+
+        def visit(n):
+            if not isinstance(n, dict):
+                return
+            if n.get("k") == "path" and n.get("res", {}).get("k") == "local":
+                rr = n["res"]
+                ns = name_side(rr["name"])
+                if ns:
+                    sides.add(ns)
+                    return
+                av = self.env.get(rr["id"])
+                if is_s(av) and av[2] in ("O", "N"):
+                    sides.add(av[2])
+                    return
+                h = self.hints.get(rr["id"])
+                if h and len(h) == 1:
+                    sides.add(list(h)[0])
+                return
+            if n.get("k") == "field":
+                ps = path_side(n)
+                if ps:
+                    sides.add(ps)
+                    return
+            for k, v in n.items():
+                if k in ("res", "tyj", "gargs"):
+                    continue
+                if isinstance(v, dict):
+                    visit(v)
+                elif isinstance(v, list):
+                    for x in v:
+                        visit(x)
+        visit(node)
+        return sides
+
+    def check_guard_mirror(self, e, pair):
+        """A10 (guards): a call whose old and new range literals mirror each other sits under an `if` whose one-sided
+        conjuncts mirror each other too (`x < n && y < m`); a bound on one side only leaves the other range unchecked."""
+        stack = self.__dict__.get("cond_stack") or []
+        if not stack:
+            return
+        cond = stack[-1]
+        conj = []
+
+        def split(n):
+            while isinstance(n, dict) and n.get("k") in ("droptemps",):
+                n = n["x"]
+            if isinstance(n, dict) and n.get("k") == "binary" and n["op"] == "&&":
+                split(n["l"])
+                split(n["r"])
+            else:
+                conj.append(n)
+        split(cond)
+        buckets = {"O": [], "N": []}
+        for c in conj:
+            if not (isinstance(c, dict) and c.get("k") == "binary" and c["op"] in ("<", "<=", ">", ">=", "==", "!=")):
+                continue
+            sides = self.cmp_sides(c)
+            if len(sides) == 1:
+                buckets[list(sides)[0]].append(self.mirror_norm(c))
+        if not buckets["O"] and not buckets["N"]:
+            return
+        ok = sorted(buckets["O"]) == sorted(buckets["N"])
+        self.ctx.ob("A10", ok, "%s: guard of `%s`: old-side conditions %s mirror new-side conditions %s" % (
+            self.fn.path, e.get("src", "")[:50], buckets["O"], buckets["N"]))
+        if not ok:
+            self.ctx.finding("A10", self.fn, "guard-mirror:%s" % _norm_src(e.get("src", "")),
+                             "`%s` works on an old and a new range that mirror each other, but the enclosing `if %s` bounds "
+                             "the two sides differently (old-side conditions %s, new-side conditions %s): one range is built "
+                             "without its bound being checked" % (e.get("src", "")[:80], cond.get("src", "")[:80],
+                                                                  buckets["O"], buckets["N"]), e["line"])
 
     def mirror_norm(self, node):
         def ren(name):
@@ -1755,7 +1865,10 @@ class FnEval:
                 return O(add(a0, rest[0] if rest else ANY, "+"))
             if name in ("min", "max"):
                 conflicts = []
-                v = join(a0, rest[0] if rest else ANY, conflicts)
+                y = rest[0] if rest else ANY
+                if is_s(y) and a0[1] == LEN and y[1] == LEN and {a0[2], y[2]} == {"O", "N"}:
+                    return S(LEN, "M")       # an explicit mixture of an old-side and a new-side length
+                v = join(a0, y, conflicts)
                 self.conflict_check([c for c in conflicts if is_s(c[1]) and c[1][1] == POS], "`%s`" % e.get("src", name),
                                     line, rule="A7")
                 return _unx(v)
@@ -1914,6 +2027,8 @@ class FnEval:
         if path.startswith("std::cmp::Ord::") or path.startswith("std::cmp::"):
             if name in ("max", "min") and len(vals) + (1 if recv is not None else 0) == 2:
                 x, y = ([rv] + vals) if recv is not None else vals
+                if is_s(x) and is_s(y) and x[1] == LEN and y[1] == LEN and {x[2], y[2]} == {"O", "N"}:
+                    return S(LEN, "M")       # an explicit mixture of an old-side and a new-side length
                 return join(x, y)
         if path.startswith("std::borrow::Cow"):
             return vals[0] if vals else ANY
